@@ -17,20 +17,20 @@ THE PROPERTY (id {pid}: {p['title']}):
 Quantified over: {p['quantifier']['text']}
 Code the property is anchored in: {', '.join(p['anchors']['files'])}
 
-TASK: produce FOUR independent seeded defects (A, B, C and D) for this property, each in a DIFFERENT function (or clearly different branch) of the code the property is anchored in. This round is about BREADTH, not subtlety: everyday one- or two-line slips of the kind that really get committed - a wrong variable or attribute (x1 where x2 was meant, shape for size, exponents for coefficients, names for keys), a wrong axis or a missing keepdims, a swapped pair of arguments, a dropped minus sign or a forgotten abs, < for <=, an off-by-one in a range or slice, integer instead of true division, a default value changed, a missing copy, a condition negated or simplified away, an early return that skips a needed step, a loop that starts at 1, `and` for `or`, a sort that lost its key, ... Each must:
- 1. be small and plausible (no sabotage keyed on a magic value),
- 2. violate the property above for some inputs, observably through the public API,
- 3. sit in a function, branch or argument combination that the existing tests do not exercise, so that the whole existing test-suite outcome stays unchanged (run it: the same failures listed below and nothing else), and the library still imports.
-Prefer public functions and branches named in the property that the existing tests never call (look at the test files to see what they cover). Earlier rounds concentrated on exotic triggers; do not do that here - ordinary small inputs should be enough to show each defect once you call the right function in the right way.
+TASK: produce TWO independent seeded defects (A and B) for this property, in different functions of the code the property is anchored in (or in helpers those functions call). This round is about HISTORY and SHARED STATE: each defect must be of the kind where a single call on a fresh interpreter still behaves correctly, and the property breaks only because of what happened EARLIER in the same process or because two objects now share something they should not. Realistic examples: a local scratch buffer, list or dict hoisted to module scope (or turned into a mutable default argument) "for speed" and not reset between calls; a memo/cache (functools.lru_cache, a module-level dict) added with a key that is too coarse (e.g. keyed on the names or the shape but not the dtype, the exponents or the current options); a result that is returned from the cache without a copy, so that a caller who writes to one result changes a later one; a result that now shares memory (a view instead of a copy) with an argument or with an earlier result; a global option or numpy setting that is changed during a call and not restored on some path (early return, exception); an iterator or counter that is not re-initialised; a lazily built module global that is built from the first call's arguments; state stored on a class instead of the instance. Each must:
+ 1. be small and plausible - something a maintainer could commit as an optimisation or clean-up (no sabotage keyed on a magic value),
+ 2. violate the property above for some SEQUENCE of public calls (say which sequence), observably through the public API, while the same final call made first in a fresh interpreter is still correct,
+ 3. keep the whole existing test-suite outcome unchanged (run it: the same failures listed below and nothing else; remember the tests run in one process, so a cache can make them fail - check), and the library still imports.
+Keep the triggering sequence short (two to four calls with small ordinary inputs) and deterministic.
 
-For each defect X in (A, B, C, D) write, inside {wt}/MUTANT/:
+For each defect X in (A, B) write, inside {wt}/MUTANT/:
   - X.patch.diff : output of `git diff` for that change alone (relative to the unchanged checkout; each patch must apply on its own to a clean checkout with `git apply`),
   - X.demo.py    : a small standalone program (run as `cd <checkout> && /venv/bin/python MUTANT/X.demo.py`) that exits 0 on the unchanged checkout and exits non-zero (assertion failure) when the patch is applied, demonstrating the property violation through public API calls only,
   - X.notes.md   : 3-6 lines: what was changed, which clause of the property it breaks, what is needed for it to manifest, test-suite and demo results.
-Procedure per defect: start from a clean checkout (`git -C {wt} checkout -- .`; the MUTANT directory is untracked and stays), make the change, run the test-suite, run the demo (must fail), save `git diff > MUTANT/X.patch.diff`, revert with `git checkout -- .`, run the demo again (must pass). Leave the checkout clean (reverted) at the end, with only the MUTANT/ directory added. Before finishing, double-check all patches apply cleanly with `git apply --check`. If you cannot find four, deliver as many as you can.
+Procedure per defect: start from a clean checkout (`git -C {wt} checkout -- .`; the MUTANT directory is untracked and stays), make the change, run the test-suite, run the demo (must fail), save `git diff > MUTANT/X.patch.diff`, revert with `git checkout -- .`, run the demo again (must pass). Leave the checkout clean (reverted) at the end, with only the MUTANT/ directory added. Before finishing, double-check all patches apply cleanly with `git apply --check`. If you cannot find two, deliver as many as you can.
 
 Known limitations of the unchanged checkout (do not build on these; your demo must pass on the unchanged checkout): matmul with 1-d operands does not follow numpy; size-0 (empty) arrays lose their shape; repeat without an axis repeats along axis 0; power with non-integer exponents truncates them; a numpy scalar on the left of / % divmod dispatches to numeric division; out= arguments are handled inconsistently. On the unchanged checkout the test-suite fails exactly these 12 tests and no others: test_count_nonzero[numpoly|numpy], test_amax[numpoly|numpy], test_amin[numpoly|numpy], test_max[numpoly|numpy|method], test_min[numpoly|numpy|method] (their expectations are known to be wrong); with your change the outcome must be identical. Run the suite WITHOUT -x. Never use `git stash` (the stash is shared between all worktrees and other agents work concurrently); to compare with the unchanged checkout save your diff to a file and use `git checkout -- .`. The machine is busy: the test-suite may take a few minutes.
 
 When a demo is run as `cd <checkout> && /venv/bin/python MUTANT/X.demo.py`, Python puts MUTANT/ (not the checkout) first on sys.path: start each demo with `import sys, os; sys.path.insert(0, os.getcwd())` and assert that numpoly.__file__ lies under the checkout.
 
-Final answer: a short report listing, for each of A-D: the files changed, a one-sentence description, what is needed to trigger it, and confirmation of the test-suite and demo results.""")
+Final answer: a short report listing, for each of A-B: the files changed, a one-sentence description, what is needed to trigger it, and confirmation of the test-suite and demo results.""")
